@@ -34,6 +34,17 @@ pub fn stats_case<T: Sc>(rng: &mut Rng, idx: usize, thorough: bool) -> FitCase<T
         recipe = Recipe { names: vec![NAMES[0].to_string()], fns: vec![FnSpec { kind, params: vec![0] }], x: vec![] };
     }
     let weak = weak && !interp;
+    // one case in twenty-four (cycled): FEWER SAMPLES THAN BASIS FUNCTIONS (M = 3, P = 1, N = M + P - 2 = 2):
+    // the fit interpolates (successful), the statistics are under-determined - an error value in every profile,
+    // also where N - M alone is negative (the regression after round 13 showed that the random recipes could
+    // go a whole run without N < M)
+    if idx % 24 == 0 && !interp {
+        recipe = Recipe {
+            names: vec![NAMES[0].to_string()],
+            fns: vec![FnSpec { kind: Kind::Exp, params: vec![0] }, FnSpec { kind: Kind::One, params: vec![] }, FnSpec { kind: Kind::Lin, params: vec![] }],
+            x: vec![],
+        };
+    }
     let total = recipe.m() + recipe.p();
     let deltas: [i64; 12] = [-2, -1, 0, 1, 1, 2, 2, 3, 5, 8, 20, 3];
     let delta = if interp { 1 } else { deltas[idx % deltas.len()] };
